@@ -25,7 +25,7 @@ META = {
     'assumptions': ['callees are pure and satisfy C02, C04, C05, C10'],
 }
 DOM = {'e1': (100000, 900000), 'n1': (1000000, 9000000), 'e2': (100000, 900000), 'n2': (1000000, 9000000), 'zone1': (1, 60), 'zone2': (1, 60),
-       'brg': (0, 360), 'gdist': (1, 100000), 'a': (6300000, 6400000), 'invf': (280, 320), 'lat': (-90, 90)}
+       'brg': (-5, 365), 'gdist': (1, 100000), 'a': (6300000, 6400000), 'invf': (280, 320), 'lat': (-90, 90)}
 
 
 def _mods():
@@ -103,7 +103,8 @@ def g_direct(tier, seed):
             ell = sym_ell(gc)
             z1 = fresh_real('zone1', 1, 60, is_int=True)
             e1, n1 = fresh_real('e1', *DOM['e1']), fresh_real('n1', *DOM['n1'])
-            brg, gdist = fresh_real('brg', 0, 360), fresh_real('gdist', 1, 100000)
+            # the grid bearings vincinv_utm returns are azimuth + convergence, not wrapped: the direct must take all of them
+            brg, gdist = fresh_real('brg', -5, 365), fresh_real('gdist', 1, 100000)
             return (z1, e1, n1, brg, gdist, ell), gd.vincdir_utm(z1, e1, n1, brg, gdist, hemi, ell)
         with swap_globals(gd, **S):
             paths, st = explore(run, max_paths=20, loop_bound=2, max_decisions=20)
